@@ -1,35 +1,89 @@
 /* /verif/harness/civil.c - lemma bodies, lemma proofs and property lemmas for unit civil. */
 
 /* bodies of the ghost lemma functions (never executed: every call is replaced by the contract) */
-void lemma_quot_bounds(diff_t cd, diff_t d) {}
-void lemma_shift400(year_t x, year_t qc, year_t qd) {}
-void lemma_nday_lift(year_t y, int m0, diff_t d0, diff_t cd0, year_t ey, year_t oey, int m1, diff_t d1, year_t ry) {}
 
-/* a proof step: P is an obligation, and is then available to the following steps */
-#define STEP(P, msg) do { __CPROVER_assert(P, msg); __CPROVER_assume(P); } while (0)
 #pragma CPROVER check push
 #pragma CPROVER check disable "signed-overflow"
 #pragma CPROVER check disable "conversion"
 
 void pl_lemma_quot_bounds(void)
 {
-  diff_t cd, d;
-  __CPROVER_assume(lemma_quot_bounds_REQ(cd, d));
-  __CPROVER_assert(lemma_quot_bounds_ENS(cd, d), "lemma_quot_bounds.ENS");
+  diff_t cd, d, qc, qd, rc, rd;
+  __CPROVER_assume(lemma_quot_bounds_REQ(cd, d, qc, qd, rc, rd));
+  __CPROVER_assert(lemma_quot_bounds_ENS(cd, d, qc, qd, rc, rd), "lemma_quot_bounds.ENS");
 }
 
 void pl_lemma_shift400(void)
 {
-  year_t x, qc, qd;
-  __CPROVER_assume(lemma_shift400_REQ(x, qc, qd));
+  year_t x, qc, qd; int e;
+  __CPROVER_assume(lemma_shift400_REQ(x, qc, qd, e));
+  REVEAL_IDX400(x);
   STEP(-((year_t)1 << 58) < x && x < ((year_t)1 << 58), "x is bounded");
   STEP(FD(x - K400(qc, qd), 400) == FD(x, 400) - (qc + qd), "quotient shift by 400");
   STEP(FM(x - K400(qc, qd), 400) == FM(x, 400), "remainder unchanged");
-  __CPROVER_assert(lemma_shift400_ENS(x, qc, qd), "lemma_shift400.ENS");
+  STEP((Z)e == (Z)(x - K400(qc, qd)), "e is x - K");
+  REVEAL_FMI(e);
+  USE(lemma_I_anchor_REQ(e, 1, 1), lemma_I_anchor_ENS(e, 1, 1), "I_anchor(e)");
+  __CPROVER_assert(lemma_shift400_ENS(x, qc, qd, e), "lemma_shift400.ENS");
 }
-
-/* use of an already proved lemma inside another lemma's proof: check its hypothesis, assume its conclusion */
-#define USE(REQ, ENS, msg) do { __CPROVER_assert(REQ, "hypothesis of " msg); __CPROVER_assume(ENS); } while (0)
+/* lemmas about the opaque small-year symbols: each proof reveals the definitions at the terms it mentions */
+void pl_lemma_I_anchor(void) { int e, m, d; __CPROVER_assume(lemma_I_anchor_REQ(e, m, d)); __CPROVER_assert(lemma_I_anchor_ENS(e, m, d), "lemma_I_anchor.ENS"); }
+void pl_lemma_I_sk(void) { int k; __CPROVER_assume(lemma_I_sk_REQ(k)); __CPROVER_assert(lemma_I_sk_ENS(k), "lemma_I_sk.ENS"); }
+void pl_lemma_I_period(void)
+{
+  int e, j, m, d; __CPROVER_assume(lemma_I_period_REQ(e, j, m, d));
+  REVEAL_ORDI(e + 400 * j, m, d); REVEAL_ORDI(e, m, d);
+  /* one case per number of cycles: with j a constant the shift is a constant */
+  STEP(j != -3 || ORD_I(e - 1200, m, d) == ORD_I(e, m, d) - 3 * 146097, "period: j = -3");
+  STEP(j != -2 || ORD_I(e - 800, m, d) == ORD_I(e, m, d) - 2 * 146097, "period: j = -2");
+  STEP(j != -1 || ORD_I(e - 400, m, d) == ORD_I(e, m, d) - 146097, "period: j = -1");
+  STEP(j != 1 || ORD_I(e + 400, m, d) == ORD_I(e, m, d) + 146097, "period: j = 1");
+  STEP(j != 2 || ORD_I(e + 800, m, d) == ORD_I(e, m, d) + 2 * 146097, "period: j = 2");
+  STEP(j != 3 || ORD_I(e + 1200, m, d) == ORD_I(e, m, d) + 3 * 146097, "period: j = 3");
+  __CPROVER_assert(lemma_I_period_ENS(e, j, m, d), "lemma_I_period.ENS");
+}
+void pl_lemma_I_leapidx(void)
+{
+  int e; __CPROVER_assume(lemma_I_leapidx_REQ(e));
+  REVEAL_FMI(e); REVEAL_LEAPI(FMI(e)); REVEAL_LEAPI(e);
+  __CPROVER_assert(lemma_I_leapidx_ENS(e), "lemma_I_leapidx.ENS");
+}
+void pl_lemma_I_fmstep(void)
+{
+  int e, c; __CPROVER_assume(lemma_I_fmstep_REQ(e, c));
+  REVEAL_FMI(e + c); REVEAL_FMI(e);
+  __CPROVER_assert(lemma_I_fmstep_ENS(e, c), "lemma_I_fmstep.ENS");
+}
+void pl_lemma_I_yearstep(void)
+{
+  int e, m; __CPROVER_assume(lemma_I_yearstep_REQ(e, m));
+  REVEAL_ORDI(e + 1, m, 1); REVEAL_ORDI(e, m, 1); REVEAL_LEAPI(e + CYCM(m));
+  __CPROVER_assert(lemma_I_yearstep_ENS(e, m), "lemma_I_yearstep.ENS");
+}
+void pl_lemma_I_centstep(void)
+{
+  int e, m; __CPROVER_assume(lemma_I_centstep_REQ(e, m));
+  REVEAL_ORDI(e + 100, m, 1); REVEAL_ORDI(e, m, 1); REVEAL_FMI(e + CYCM(m));
+  __CPROVER_assert(lemma_I_centstep_ENS(e, m), "lemma_I_centstep.ENS");
+}
+void pl_lemma_I_4step(void)
+{
+  int e, m; __CPROVER_assume(lemma_I_4step_REQ(e, m));
+  REVEAL_ORDI(e + 4, m, 1); REVEAL_ORDI(e, m, 1); REVEAL_FMI(e + CYCM(m));
+  __CPROVER_assert(lemma_I_4step_ENS(e, m), "lemma_I_4step.ENS");
+}
+void pl_lemma_I_monthstep(void)
+{
+  int e, m; __CPROVER_assume(lemma_I_monthstep_REQ(e, m));
+  REVEAL_ORDI(e, m + 1, 1); REVEAL_ORDI(e, m, 1); REVEAL_ORDI(e + 1, 1, 1); REVEAL_ORDI(e, 12, 1); REVEAL_LEAPI(e);
+  __CPROVER_assert(lemma_I_monthstep_ENS(e, m), "lemma_I_monthstep.ENS");
+}
+void pl_lemma_I_day(void)
+{
+  int e, m, d; __CPROVER_assume(lemma_I_day_REQ(e, m, d));
+  REVEAL_ORDI(e, m, d); REVEAL_ORDI(e, m, 1);
+  __CPROVER_assert(lemma_I_day_ENS(e, m, d), "lemma_I_day.ENS");
+}
 
 void pl_lemma_div146097(void) { diff_t x; __CPROVER_assert(lemma_div146097_ENS(x), "lemma_div146097.ENS"); }
 void pl_lemma_div400(void) { year_t y; __CPROVER_assert(lemma_div400_ENS(y), "lemma_div400.ENS"); }
@@ -83,13 +137,11 @@ void pl_lemma_lin_fits(void)
 
 void pl_lemma_nday_lift(void)
 {
-  year_t y, ey, oey, ry; int m0, m1; diff_t d0, cd0, d1;
-  __CPROVER_assume(lemma_nday_lift_REQ(y, m0, d0, cd0, ey, oey, m1, d1, ry));
+  year_t y, ey, oey, ry, qc, qd; int m0, m1; diff_t d0, cd0, d1, rc, rd;
+  __CPROVER_assume(lemma_nday_lift_REQ(y, m0, d0, cd0, qc, qd, rc, rd, ey, oey, m1, d1, ry));
   const Z k0 = (Z)(y / 400);
-  const Z k1 = k0 + (Z)(cd0 / 146097) + (Z)(d0 / 146097);
-  const Z E = LIFT_E(ey, d0, cd0);
-  USE(lemma_div146097_REQ(cd0), lemma_div146097_ENS(cd0), "div146097(cd0)");
-  USE(lemma_div146097_REQ(d0), lemma_div146097_ENS(d0), "div146097(d0)");
+  const Z k1 = k0 + (Z)qc + (Z)qd;
+  const Z E = LIFT_E(ey, qc, qd);
   USE(lemma_div400_REQ(y), lemma_div400_ENS(y), "div400(y)");
   STEP(LIFT_RY(y, ey, oey) == E + 400 * k1, "result year = E + 400 k1");
   STEP((Z)y == (Z)oey + 400 * k0, "y = oey + 400 k0");
@@ -97,14 +149,19 @@ void pl_lemma_nday_lift(void)
   USE(lemma_period_REQ((Z)oey, k0, m0, 1), lemma_period_ENS((Z)oey, k0, m0, 1), "period(oey,k0)");
   USE(lemma_cong_REQ(LIFT_RY(y, ey, oey), E + 400 * k1, m1, d1), lemma_cong_ENS(LIFT_RY(y, ey, oey), E + 400 * k1, m1, d1), "cong(RY)");
   USE(lemma_cong_REQ(y, (Z)oey + 400 * k0, m0, 1), lemma_cong_ENS(y, (Z)oey + 400 * k0, m0, 1), "cong(y)");
-  STEP(ORD(E, m1, d1) == (Z)ORD_I((int)E, m1, (int)d1), "small ordinal of E agrees with ORD_I");
-  STEP(ORD((Z)oey, m0, 1) == (Z)ORD_I((int)oey, m0, 1), "small ordinal of oey agrees with ORD_I");
+  REVEAL_ORDI((int)E, m1, (int)d1); REVEAL_ORDI((int)oey, m0, 1); REVEAL_LEAPI((int)E);
+  USE(lemma_I_anchor_REQ((int)E, m1, (int)d1), lemma_I_anchor_ENS((int)E, m1, (int)d1), "I_anchor(E)");
+  USE(lemma_I_anchor_REQ((int)oey, m0, 1), lemma_I_anchor_ENS((int)oey, m0, 1), "I_anchor(oey)");
+  USE(lemma_cong_REQ(E, (Z)((int)E), m1, d1), lemma_cong_ENS(E, (Z)((int)E), m1, d1), "cong(E)");
+  USE(lemma_cong_REQ((Z)oey, (Z)((int)oey), m0, 1), lemma_cong_ENS((Z)oey, (Z)((int)oey), m0, 1), "cong(oey)");
+  STEP(ORD(E, m1, d1) == (Z)ORDI((int)E, m1, (int)d1), "small ordinal of E agrees with ORDI");
+  STEP(ORD((Z)oey, m0, 1) == (Z)ORDI((int)oey, m0, 1), "small ordinal of oey agrees with ORDI");
   USE(lemma_lin_lift_REQ(ORD(LIFT_RY(y, ey, oey), m1, d1), ORD(E + 400 * k1, m1, d1), ORD(E, m1, d1),
                          ORD(y, m0, 1), ORD((Z)oey + 400 * k0, m0, 1), ORD((Z)oey, m0, 1),
-                         ORD_I((int)E, m1, (int)d1), ORD_I((int)oey, m0, 1), k0, k1, cd0 / 146097, d0 / 146097, cd0 % 146097, d0 % 146097, d0, cd0),
+                         ORDI((int)E, m1, (int)d1), ORDI((int)oey, m0, 1), k0, k1, qc, qd, rc, rd, d0, cd0),
       lemma_lin_lift_ENS(ORD(LIFT_RY(y, ey, oey), m1, d1), ORD(E + 400 * k1, m1, d1), ORD(E, m1, d1),
                          ORD(y, m0, 1), ORD((Z)oey + 400 * k0, m0, 1), ORD((Z)oey, m0, 1),
-                         ORD_I((int)E, m1, (int)d1), ORD_I((int)oey, m0, 1), k0, k1, cd0 / 146097, d0 / 146097, cd0 % 146097, d0 % 146097, d0, cd0),
+                         ORDI((int)E, m1, (int)d1), ORDI((int)oey, m0, 1), k0, k1, qc, qd, rc, rd, d0, cd0),
       "lin_lift");
   USE(lemma_ordyear_REQ(LIFT_RY(y, ey, oey), m1, d1), lemma_ordyear_ENS(LIFT_RY(y, ey, oey), m1, d1), "ordyear(RY)");
   USE(lemma_lin_fits_REQ(LIFT_RY(y, ey, oey), ORDY(LIFT_RY(y, ey, oey)), ORDY((Z)(LIFT_RY(y, ey, oey)) + 1), ORD(LIFT_RY(y, ey, oey), m1, d1),
@@ -115,8 +172,35 @@ void pl_lemma_nday_lift(void)
   STEP((Z)ry == LIFT_RY(y, ey, oey), "wrapped sum is the sum");
   USE(lemma_cong_REQ(ry, LIFT_RY(y, ey, oey), m1, d1), lemma_cong_ENS(ry, LIFT_RY(y, ey, oey), m1, d1), "cong(ry)");
   STEP(ORD(ry, m1, d1) == NDAY_T(y, m0, d0, cd0), "ORD(ry) is the target");
-  STEP((LEAP((Z)E) ? 1 : 0) == (LEAP((int)E) ? 1 : 0), "LEAP of the small year in 32 bits");
-  STEP((LEAP((Z)(ry)) ? 1 : 0) == (LEAP((int)E) ? 1 : 0), "LEAP(ry) == LEAP(E)");
-  __CPROVER_assert(lemma_nday_lift_ENS(y, m0, d0, cd0, ey, oey, m1, d1, ry), "lemma_nday_lift.ENS");
+  STEP((LEAP((Z)E) ? 1 : 0) == (LEAP_I((int)E) ? 1 : 0), "LEAP of the small year in the cheap form");
+  STEP((LEAP((Z)(ry)) ? 1 : 0) == (LEAP_I((int)E) ? 1 : 0), "LEAP(ry) == LEAP(E)");
+  __CPROVER_assert(lemma_nday_lift_ENS(y, m0, d0, cd0, qc, qd, rc, rd, ey, oey, m1, d1, ry), "lemma_nday_lift.ENS");
 }
+void pl_lemma_ord_reduce(void)
+{
+  year_t y; int m, d;
+  __CPROVER_assume(lemma_ord_reduce_REQ(y, m, d));
+  USE(lemma_div400_REQ(y), lemma_div400_ENS(y), "div400(y)");
+  STEP((Z)y == (Z)(y % 400) + 400 * (Z)(y / 400), "y = y%400 + 400 (y/400)");
+  USE(lemma_period_REQ((Z)(y % 400), (Z)(y / 400), m, d), lemma_period_ENS((Z)(y % 400), (Z)(y / 400), m, d), "period(y%400, y/400)");
+  USE(lemma_cong_REQ(y, (Z)(y % 400) + 400 * (Z)(y / 400), m, d), lemma_cong_ENS(y, (Z)(y % 400) + 400 * (Z)(y / 400), m, d), "cong(y)");
+  __CPROVER_assert(lemma_ord_reduce_ENS(y, m, d), "lemma_ord_reduce.ENS");
+}
+void pl_lemma_fd7shift(void) { Z x, k, c; __CPROVER_assume(lemma_fd7shift_REQ(x, k, c)); __CPROVER_assert(lemma_fd7shift_ENS(x, k, c), "lemma_fd7shift.ENS"); }
+void pl_lemma_wd_period(void)
+{
+  Z x, k;
+  __CPROVER_assume(lemma_wd_period_REQ(x, k));
+  USE(lemma_fd7shift_REQ(x, k, WD_C), lemma_fd7shift_ENS(x, k, WD_C), "fd7shift(x,k,WD_C)");
+  __CPROVER_assert(lemma_wd_period_ENS(x, k), "lemma_wd_period.ENS");
+}
+void pl_lemma_wd_add(void)
+{
+  Z x; int c;
+  __CPROVER_assume(lemma_wd_add_REQ(x, c));
+  STEP(FD((Z)((Z)(x) + (c)) + WD_C, 7) == FD((Z)(x) + WD_C, 7) + FD(FM((Z)(x) + WD_C, 7) + (c), 7), "quotient of x+c");
+  STEP(FD((Z)((Z)(x) - (c)) + WD_C, 7) == FD((Z)(x) + WD_C, 7) + FD(FM((Z)(x) + WD_C, 7) - (c), 7), "quotient of x-c");
+  __CPROVER_assert(lemma_wd_add_ENS(x, c), "lemma_wd_add.ENS");
+}
+void pl_lemma_wd_cong(void) { Z a, b; __CPROVER_assume(lemma_wd_cong_REQ(a, b)); __CPROVER_assert(lemma_wd_cong_ENS(a, b), "lemma_wd_cong.ENS"); }
 #pragma CPROVER check pop
